@@ -11,9 +11,9 @@ from ..stencil import SArr, NLin
 from .c02 import _decide
 
 
-def decoded(proj, clsname, periodic=True):
+def decoded(proj, clsname, periodic=True, neq=1):
     """(Disc1D, L, R) with decoded left/right face states of reconstruction `clsname`"""
-    D = Disc1D(proj, periodic=periodic)
+    D = Disc1D(proj, neq=neq, periodic=periodic)
     ci, num = D.recon(clsname, limiter=phi_axioms(D.alg))
     # the stages run in the order, and under the conditions, of rhs() for this reconstruction class
     plan = D.stage_plan(ci)
